@@ -26,6 +26,7 @@ def sh(cmd, cwd=None, timeout=3600):
 def main():
     src = sys.argv[1].rstrip("/")
     full = "--full" in sys.argv
+    notests = "--no-tests" in sys.argv
     sid = os.path.basename(src)
     meta = json.load(open(os.path.join(src, "meta.json")))
     demo = next((f for f in ("demo.py", "test_demo.py") if os.path.exists(os.path.join(src, f))), None)
@@ -70,6 +71,8 @@ def main():
                     if os.path.exists(os.path.join(wt, t)):
                         tests.add(t)
             tcmd = "isopytest -q -x --timeout=900 " + " ".join(sorted(tests)) if tests else None
+        if notests:
+            tcmd = None
         if tcmd:
             t = time.time()
             rct, ot = sh("timeout 3400 " + tcmd, cwd=wt, timeout=3500)
